@@ -267,6 +267,13 @@ def known_findings(prop):
             if (f["property"] == prop or prop in f.get("also", [])) and f.get("status") == "open"}
 
 
+def load_ledger(prop):
+    p = os.path.join(ROOT, "known_cases", f"{prop}.json")
+    if not os.path.exists(p):
+        return None
+    return set(json.load(open(p))["cases"])
+
+
 class Ctx:
     """one run of one property check"""
 
@@ -285,6 +292,12 @@ class Ctx:
         self.disagreements = 0      # model vs implementation
         self.oracle_failures = 0    # implementation vs property oracle
         self.known = known_findings(prop)
+        # ledger of the deterministic (seed-independent) inputs that fail on the recorded tree, by input hash: a listed finding
+        # excuses a deterministic case only if that very input is in the ledger (so a NEW failing input of a known symptom class
+        # is still reported). Written only by `VERIF_RECORD_LEDGER=1 ./check ..` during development, never by a normal run.
+        self.ledger = load_ledger(prop)
+        self.recording = os.environ.get("VERIF_RECORD_LEDGER") == "1"
+        self.ledger_seen = set()
         self.exhaustive = None
         self.rule = ""
         self.broken = []            # names of broken proof obligations / ties
@@ -310,9 +323,22 @@ class Ctx:
         d[key] = d.get(key, 0) + n
 
     # -- failures
-    def oracle_failure(self, finding_id, what, replay_obj):
-        """the implementation violates the property on a concrete input. finding_id: classification or None"""
+    @staticmethod
+    def case_hash(*parts):
+        return hashlib.sha1(json.dumps(parts, sort_keys=True, default=str).encode()).hexdigest()[:14]
+
+    def oracle_failure(self, finding_id, what, replay_obj, det_key=None):
+        """the implementation violates the property on a concrete input. finding_id: classification or None.
+        det_key: identity of the input when it comes from a deterministic (seed-independent) stream."""
         self.oracle_failures += 1
+        if det_key is not None and finding_id and finding_id in self.known and not self.known[finding_id].get("unstable"):
+            h = self.case_hash(det_key)
+            if self.recording:
+                self.ledger_seen.add(h)
+            elif self.ledger is not None and h not in self.ledger:
+                what = (f"[same symptom class as known finding `{finding_id}`, but this deterministic input is not in the ledger of "
+                        f"inputs that fail on the recorded tree] " + what)
+                finding_id = None
         if finding_id and finding_id in self.known:
             self.known_hits[finding_id] = self.known_hits.get(finding_id, 0) + 1
             return
@@ -328,6 +354,13 @@ class Ctx:
     # -- finish
     def finish(self):
         os.makedirs(REPLAY, exist_ok=True)
+        if self.recording:
+            d = os.path.join(ROOT, "known_cases")
+            os.makedirs(d, exist_ok=True)
+            path = os.path.join(d, f"{self.prop}.json")
+            old = set(json.load(open(path))["cases"]) if os.path.exists(path) else set()
+            json.dump({"property": self.prop, "note": "hashes of deterministic inputs that fail with a listed finding on the recorded tree "
+                       "(written by VERIF_RECORD_LEDGER=1, union over tiers)", "cases": sorted(old | self.ledger_seen)}, open(path, "w"))
         wall = time.time() - self.t0
         for fid, n in sorted(self.known_hits.items()):
             f = self.known[fid]
